@@ -43,10 +43,21 @@ theorem updPacket_refines (r : Regs) (pkt : List (BitVec 8)) :
     toPortable (updPacket r pkt) = P.updPacket (toPortable r) pkt := by
   simp only [updPacket, update_refines, loadu_lanes, P.updPacket]
 
+theorem permute_eq (v : R256) : permute v = ⟨shuffle_epi32 v.hi 177, shuffle_epi32 v.lo 177⟩ := by
+  have i0 : (lane32 (mk 0x0000000600000007#64 0x0000000400000005#64) 0).toNat % 8 = 5 := by decide
+  have i1 : (lane32 (mk 0x0000000600000007#64 0x0000000400000005#64) 1).toNat % 8 = 4 := by decide
+  have i2 : (lane32 (mk 0x0000000600000007#64 0x0000000400000005#64) 2).toNat % 8 = 7 := by decide
+  have i3 : (lane32 (mk 0x0000000600000007#64 0x0000000400000005#64) 3).toNat % 8 = 6 := by decide
+  have i4 : (lane32 (mk 0x0000000200000003#64 0x0000000000000001#64) 0).toNat % 8 = 1 := by decide
+  have i5 : (lane32 (mk 0x0000000200000003#64 0x0000000000000001#64) 1).toNat % 8 = 0 := by decide
+  have i6 : (lane32 (mk 0x0000000200000003#64 0x0000000000000001#64) 2).toNat % 8 = 3 := by decide
+  have i7 : (lane32 (mk 0x0000000200000003#64 0x0000000000000001#64) 3).toNat % 8 = 2 := by decide
+  simp only [permute, permutevar8x32_epi32, set256_epi64x, R256.lane32, Nat.reduceLT, ↓reduceIte, Nat.reduceSub, i0, i1, i2, i3, i4, i5, i6, i7,
+    shuffle_epi32, Nat.reduceShiftRight, Nat.reduceMod]
+
 theorem permute_lanes (v : R256) : r256ToV4 (permute v) = P.permute (r256ToV4 v) := by
-  unfold permute permutevar8x32_epi32 set256_epi64x R256.lane32 r256ToV4 P.permute lane32 mk32 mk lo64 hi64
-  simp
-  refine ⟨?_, ?_, ?_, ?_⟩ <;> bv_decide
+  simp only [permute_eq, shuffle_epi32_rot, r256ToV4, P.permute, lo64_mk, hi64_mk]
+
 
 theorem permuteAndUpdate_refines (r : Regs) :
     toPortable (permuteAndUpdate r) = P.permuteAndUpdate (toPortable r) := by
@@ -121,13 +132,45 @@ theorem vsize_add (v : BitVec 128) (n : Nat) (h : n < 32) :
   · simp only [hi64_add, hi64_mk]; congr 1
     interval_cases n <;> decide
 
-set_option maxRecDepth 100000 in
+theorem sizeLane (n : Nat) (h : n < 32) : lane32 (cvtsi64_si128 (BitVec.ofNat 64 n)) 0 = BitVec.ofNat 32 n := by
+  simp only [cvtsi64_si128, lane32_0, lo64_mk]
+  apply BitVec.eq_of_toNat_eq
+  simp [BitVec.toNat_setWidth, BitVec.toNat_ofNat]
+
+theorem tipLane : lane32 (cvtsi32_si128 32) 0 = 32#32 := by decide
+
+theorem lane32_set1 (x : BitVec 32) (k : Nat) (hk : k < 4) : lane32 (set1_epi32 x) k = x := by
+  have := mk32_lanes (set1_epi32 x)
+  interval_cases k <;> (unfold set1_epi32 lane32 mk32; bv_lsb)
+
 theorem rotate_lanes (v : BitVec 128) (n : Nat) (h : n < 32) :
     or_si128 (sllv_epi32 v (set1_epi32 (lane32 (cvtsi64_si128 (BitVec.ofNat 64 n)) 0)))
              (srlv_epi32 v (sub_epi32 (set1_epi32 (lane32 (cvtsi32_si128 32) 0)) (set1_epi32 (lane32 (cvtsi64_si128 (BitVec.ofNat 64 n)) 0))))
       = mk (P.rot32Lane n (hi64 v)) (P.rot32Lane n (lo64 v)) := by
-  unfold P.rot32Lane sllv_epi32 srlv_epi32 sllv32 srlv32 sub_epi32 set1_epi32 cvtsi64_si128 cvtsi32_si128 or_si128 lane32 mk32 mk lo64 hi64
-  interval_cases n <;> simp <;> bv_decide
+  have hn : (BitVec.ofNat 32 n).toNat = n := by simp [BitVec.toNat_ofNat]; omega
+  have hs : (32#32 - BitVec.ofNat 32 n).toNat = 32 - n := by
+    simp [BitVec.toNat_sub, BitVec.toNat_ofNat]; omega
+  have l0 := lane32_set1 (BitVec.ofNat 32 n) 0 (by decide)
+  have l1 := lane32_set1 (BitVec.ofNat 32 n) 1 (by decide)
+  have l2 := lane32_set1 (BitVec.ofNat 32 n) 2 (by decide)
+  have l3 := lane32_set1 (BitVec.ofNat 32 n) 3 (by decide)
+  have t0 := lane32_set1 (32#32) 0 (by decide)
+  have t1 := lane32_set1 (32#32) 1 (by decide)
+  have t2 := lane32_set1 (32#32) 2 (by decide)
+  have t3 := lane32_set1 (32#32) 3 (by decide)
+  by_cases h0 : n = 0
+  · subst h0
+    have h32 : (32 : Nat) > 31 := by decide
+    have hz : mk32 (0 : BitVec 32) 0 0 0 = (0 : BitVec 128) := by decide
+    simp only [sizeLane 0 h, tipLane, sllv_epi32, srlv_epi32, sub_epi32, sllv32, srlv32, l0, l1, l2, l3, t0, t1, t2, t3, lane32_mk32,
+      hn, hs, Nat.sub_zero, h32, Nat.not_lt_zero, gt_iff_lt, ↓reduceIte, BitVec.shiftLeft_zero, mk32_lanes, rot32Lane_zero, mk_lo_hi, or_si128]
+    rw [hz]; simp
+  · have h1 : ¬ n > 31 := by omega
+    have h2 : ¬ 32 - n > 31 := by omega
+    simp only [sizeLane n h, tipLane, sllv_epi32, srlv_epi32, sub_epi32, sllv32, srlv32, l0, l1, l2, l3, t0, t1, t2, t3, lane32_mk32,
+      hn, hs, h1, h2, ↓reduceIte, or_mk32]
+    exact rot_mk32 v n h0 h
+
 
 theorem updateRemainder_refines (x : State) (hb : x.buffer.buf.length = 32) (hi : x.buffer.idx < 32) :
     toPortable (updateRemainder x) =
@@ -148,17 +191,28 @@ theorem finalizeCommon_refines (n : Nat) (x : State) (hx : x.buffer.Inv) :
   · simp [h0]
   · simp [h0, updateRemainder_refines x hb hi]
 
+theorem modLane (xh xl ih il : BitVec 64) :
+    il ^^^ (xl <<< 2) ^^^ 0 ^^^ (~~~(0 : BitVec 64) &&& (xl <<< 1)) ^^^ 0 = (P.moduleReduction xh xl ih il).1 ∧
+    ih ^^^ (xh <<< 2) ^^^ (xl >>> 62) ^^^ (~~~((0xFFFFFFFFFFFFFFFF#64) <<< 63) &&& (xh <<< 1)) ^^^ (xl >>> 63) = (P.moduleReduction xh xl ih il).2 := by
+  unfold P.moduleReduction
+  constructor <;> bv_lsb
+
 theorem modularReduction_refines (x init : R256) :
     r256ToV4 (modularReduction x init) =
       ⟨(P.moduleReduction (hi64 x.lo) (lo64 x.lo) (hi64 init.lo) (lo64 init.lo)).1,
        (P.moduleReduction (hi64 x.lo) (lo64 x.lo) (hi64 init.lo) (lo64 init.lo)).2,
        (P.moduleReduction (hi64 x.hi) (lo64 x.hi) (hi64 init.hi) (lo64 init.hi)).1,
        (P.moduleReduction (hi64 x.hi) (lo64 x.hi) (hi64 init.hi) (lo64 init.hi)).2⟩ := by
-  unfold modularReduction P.moduleReduction andNot andnot256 xor256 add256_epi64 srli256_epi64 slli256_epi64 slli256_si256
-    cmpeq256_epi64 unpacklo256_epi64 setzero256 R256.map2 R256.map r256ToV4
-    srli_epi64 slli_epi64 slli_si128 add_epi64 xor_si128 andnot_si128 cmpeq_epi64 cmpeq64 unpacklo_epi64 mk lo64 hi64
-  simp
-  refine ⟨?_, ?_, ?_, ?_⟩ <;> bv_decide
+  have h62 : ¬ (62 : Nat) > 63 := by decide
+  have h63 : ¬ (63 : Nat) > 63 := by decide
+  have a := modLane (hi64 x.lo) (lo64 x.lo) (hi64 init.lo) (lo64 init.lo)
+  have b := modLane (hi64 x.hi) (lo64 x.hi) (hi64 init.hi) (lo64 init.hi)
+  simp only [modularReduction, andNot, andnot256, xor256, add256_epi64, srli256_epi64, slli256_epi64, slli256_si256, cmpeq256_epi64,
+    unpacklo256_epi64, setzero256, R256.map2, R256.map, r256ToV4, lo64_xor, hi64_xor, lo64_unpacklo, hi64_unpacklo, lo64_zero, hi64_zero,
+    lo64_andnot, hi64_andnot, lo64_slli _ _ h63, hi64_slli _ _ h63, lo64_slli8, hi64_slli8, lo64_cmpeq_self, hi64_cmpeq_self,
+    lo64_srli _ _ h62, hi64_srli _ _ h62, lo64_srli _ _ h63, hi64_srli _ _ h63, lo64_add, hi64_add, add_self_shl, shl1_shl1,
+    BitVec.zero_shiftLeft, V4.mk.injEq]
+  exact ⟨a.1, a.2, b.1, b.2⟩
 
 theorem finalize64_refines (x : State) (hx : x.buffer.Inv) :
     finalize64 x = P.out64 (P.finAbs 4 (toPortable x.r, x.buffer.asSlice)) := by
